@@ -187,6 +187,16 @@ func (s *Solver) Push(t *Term) {
 	s.Level++
 }
 
+// AssertBase asserts t at the current level without opening a new scope (used for one-shot,
+// non-incremental re-checks: z3 decides a query asserted without push/pop with its full
+// pre-processing pipeline, which the incremental core skips).
+func (s *Solver) AssertBase(t *Term) {
+	var sb strings.Builder
+	s.define(t, &sb)
+	fmt.Fprintf(&sb, "(assert %s)\n", t.Ref())
+	s.send(sb.String())
+}
+
 func (s *Solver) Pop(n int) {
 	if n <= 0 {
 		return
